@@ -71,7 +71,11 @@ def build_bag(spec):
         pieces.append(data[i : i + s])
         i += s
     # one Delayed per partition; the piece travels as a JSON string so that nothing in it is traversed as a graph
-    return db.from_delayed([delayed(_piece, pure=False)(json.dumps(p)) for p in pieces]), sizes
+    # (deterministic key names: a case must be a pure function of its spec)
+    import hashlib
+
+    tag = hashlib.sha1(json.dumps([data, sizes], default=str).encode()).hexdigest()[:12]
+    return db.from_delayed([delayed(_piece, pure=True)(json.dumps(p), dask_key_name=f"piece-{tag}-{i}") for i, p in enumerate(pieces)]), sizes
 
 
 def _sizes(spec):
